@@ -64,8 +64,22 @@ def run(m: Model, r: Report, tier: str) -> None:
         if isinstance(n, ast.Assign) and isinstance(n.targets[0], ast.Tuple) and isinstance(n.value, ast.Call) and ast.unparse(n.value.func) == "struct.unpack":
             roles = {e.id: f"F{i}" for i, e in enumerate(n.targets[0].elts) if isinstance(e, ast.Name)}
     chk = [n for n in ast.walk(up.node) if isinstance(n, ast.If) and "F1" in m.mtext(up, n.test, roles) and any(isinstance(s, ast.Raise) for s in n.body)]
-    r.check(len(chk) == 1 and m.mtext(up, chk[0].test, roles).replace(" ", "") in ("F0!=F1^255", "F1!=F0^255", "F0^255!=F1", "F1^255!=F0"), "R1",
-            f"{gh.qualname}.unpack#inverse-version", "the inverse protocol version check changed", loc=up.loc)
+    # decided by evaluation over byte pairs: the header is refused exactly when the second byte is not the bitwise complement of the first
+    inv_names = {v: k for k, v in roles.items()}
+    if len(chk) != 1 or "F0" not in inv_names or "F1" not in inv_names:
+        r.unrecognised("R1", f"{gh.qualname}.unpack#inverse-version", "the test on the inverse protocol version was not found", up.loc)
+    else:
+        from sa import miniterp as _mtv
+        badv = []
+        try:
+            for a_ in (0x00, 0x02, 0x03, 0xFD, 0xFF, 0x80):
+                for b_ in (a_ ^ 0xFF, a_, 0x00, 0xFF, (a_ ^ 0xFF) ^ 0x01):
+                    refused = bool(_mtv.eval_expr(chk[0].test, {inv_names["F0"]: a_, inv_names["F1"]: b_}))
+                    if refused != (b_ != a_ ^ 0xFF):
+                        badv.append(f"version {a_:#04x}, inverse {b_:#04x}: {'refused' if refused else 'accepted'}")
+            r.check(not badv, "R1", f"{gh.qualname}.unpack#inverse-version", f"the inverse protocol version check decides {badv[:3]}", loc=up.loc)
+        except AnalysisError as ex_:
+            r.unrecognised("R1", f"{gh.qualname}.unpack#inverse-version", str(ex_), up.loc)
     # announced payload lengths
     sizes = {}
     for cname in ("RoutingActivationRequest", "AliveCheckResponse", "DiagnosticMessage"):
@@ -186,9 +200,16 @@ def run(m: Model, r: Report, tier: str) -> None:
     r.check(okf or (unfiltered_flag not in (None, "?") and not enabled), "R6", f"{diag.qualname}#every-delivered-frame-filtered",
             f"a diagnostic message can be returned without the address filter (mode {unfiltered_flag}) and that mode is in use: {enabled}; frames of other "
             "(source, target) pairs are then delivered as responses", loc=diag.loc)
-    pref = [n for n in walk_no_nested(ack.node) if isinstance(n, ast.If) and "PreviousDiagnosticMessageData" in ast.unparse(n.test)]
-    okp = len(pref) == 1 and m.has(ack, "payload.PreviousDiagnosticMessageData != prev_data[:len(payload.PreviousDiagnosticMessageData)]", pref[0].test)
-    r.check(okp, "R6", f"{ack.qualname}#echo-prefix", "the ack is not compared with the prefix of the message just sent", loc=ack.loc)
+    # the test that compares the acknowledgement's echo with the request just sent (the parameter of _read_ack); decided by the evaluated table below
+    from sa.util import subst_locals
+    ppar0 = ack.params()[1] if len(ack.params()) > 1 else "prev_data"
+    pref_ifs = [n for n in walk_no_nested(ack.node) if isinstance(n, ast.If) and any(isinstance(x, ast.Name) and x.id == ppar0 for x in ast.walk(n.test))]
+    pref_tests = [subst_locals(ack.node, n.test, {ppar0}) for n in pref_ifs]
+    if len(pref_ifs) != 1:
+        r.unrecognised("R6", f"{ack.qualname}#echo-prefix", f"{len(pref_ifs)} tests read the request bytes ({ppar0})", ack.loc)
+    else:
+        r.ok("R6", f"{ack.qualname}#echo-prefix", "one test compares the echo with the request; its decision table is evaluated below")
+    pref = pref_ifs
     # skip filters of the three consumers as truth tables over the frame kind / the address pair / the echoed prefix
     from sa import miniterp
 
@@ -245,7 +266,7 @@ def run(m: Model, r: Report, tier: str) -> None:
         bad = []
         for echo in (b"", b"\x22", b"\x22\xf1", b"\x99", b"\x22\xf1\x90\x00"):
             want_skip = len(echo) > 0 and echo != b"\x22\xf1\x90"[:len(echo)]
-            if _eval(pref[0].test, ack, _P("x", PreviousDiagnosticMessageData=echo), {ppar: b"\x22\xf1\x90"}) != want_skip:
+            if _eval(pref_tests[0], ack, _P("x", PreviousDiagnosticMessageData=echo), {ppar: b"\x22\xf1\x90"}) != want_skip:
                 bad.append(echo.hex() or "<empty>")
         r.check(not bad, "R6", f"{ack.qualname}#echo-prefix-table", f"for the request 22f190 an ack echoing {bad} is classified wrongly (an ack belongs to the request iff its echo is a prefix of it)", loc=ack.loc)
     tr.requeue_order(r, "R7", ack, m.require_function(f"{DOIP}.DoIPConnection._read_worker"), "_read_queue",
@@ -319,10 +340,20 @@ def run(m: Model, r: Report, tier: str) -> None:
 
     # ---------------------------------------------------------------- R11
     rw = m.require_function(f"{DOIP}.DoIPConnection._read_worker")
-    branches = [n for n in walk_no_nested(rw.node) if isinstance(n, ast.If) and "AliveCheckRequest" in ast.unparse(n.test)]
-    ok11 = len(branches) == 1 and any("self.write_alive_check_response()" in ast.unparse(s) for s in branches[0].body) and \
-        isinstance(branches[0].body[-1], ast.Continue)
-    r.check(ok11, "R11", f"{rw.qualname}#alive-branch", "alive check requests must be answered in the reader task and not queued", loc=rw.loc)
+    # an alive check request is answered in the reader task and goes into no queue: from the statement that answers it every path to a queue put passes
+    # the head of the reader loop first (the next frame)
+    grw = CFG(rw.node)
+    ans = [n.id for n in grw.nodes.values() if n.kind == "stmt" and n.ast is not None and "self.write_alive_check_response()" in ast.unparse(n.ast)]
+    puts_ = {n.id for n in grw.nodes.values() if n.kind == "stmt" and n.ast is not None and ".put(" in ast.unparse(n.ast) or (n.ast is not None and n.kind == "stmt" and ".put_nowait(" in ast.unparse(n.ast))}
+    heads_ = {n.id for n in grw.nodes.values() if n.kind == "loop"}
+    from sa.util import path_condition as _pca, norm_conds as _nca
+    if len(ans) != 1 or not heads_:
+        r.check(False, "R11", f"{rw.qualname}#alive-branch", f"{len(ans)} statement(s) answer alive check requests in the reader task; alive check requests must be answered there and not queued", loc=rw.loc)
+    else:
+        ok11 = grw.must_pass(ans[0], heads_, puts_)[0] if puts_ else True
+        lits_ = _nca(_pca(rw.node, grw.nodes[ans[0]].ast))
+        ok11 = ok11 and any("AliveCheckRequest" in t and v for t, v in lits_)
+        r.check(ok11, "R11", f"{rw.qualname}#alive-branch", "alive check requests must be answered in the reader task and not queued", loc=rw.loc)
     tr.reader_loop_total(r, "R11", rw, ("self._read_queue.put(", "self._diagnostic_message_queue.put(", "self.write_alive_check_response("))
     tr.queues_unbounded(m, r, "R11", conn, rw)
     tr.match_subject_total(m, r, "R11", m.require_function(f"{DOIP}.DoIPConnection._read_frame"))
